@@ -105,6 +105,7 @@ Fixpoint skip_semis (fuel : nat) (s : st) : st :=
   match fuel with 0 => s | S f => if is_semi (cur s) then skip_semis f (next s) else s end.
 Definition skip_semis_all (s : st) : st := skip_semis (S (List.length (rest s))) s.
 
+Definition is_nil (e : ast) : bool := match e with ENil => true | _ => false end.
 Definition is_variable_node (e : ast) : bool := match e with EAtom (AVar _) => true | _ => false end.
 
 (* ---------- ExpressionParser.missingOperand (fixes c587cb8, f8e6a0b, eaab7d4, 951a1ff) ---------- *)
@@ -174,7 +175,7 @@ Definition kind (n : nat) : lkind :=
   end.
 
 Definition statement_kw (t : stok) : bool :=     (* no postfix ++/-- after these *)
-  match t with SKw (KIf | KElse | KFor | KForeach | KWhile | KSwitch | KTry | KCatch | KFinally) => true | _ => false end.
+  match t with SKw (KIf | KElse | KFor | KForeach | KWhile | KDo | KSwitch | KTry | KCatch | KFinally | KFunction) => true | _ => false end.
 
 Inductive mode :=
   | Program (last : nat) (acc : list ast)       (* parseProgram's loop *)
@@ -222,545 +223,645 @@ Fixpoint index_pairs (i : nat) (l : list ast) : list (ast * ast) :=
 Definition is_class_name (n : nat) : bool := n =? 8.       (* Exception *)
 
 (* Parser.kvComplete (fix b005434) *)
-Definition is_nil (e : ast) : bool := match e with ENil => true | _ => false end.
 Definition kv_ok (ps : list (ast * ast)) : bool := forallb (fun p => negb (is_nil (fst p)) && negb (is_nil (snd p))) ps.
 Definition kv_ret (ps : list (ast * ast)) (s : st) : res := if kv_ok ps then Ok (EKv ps) s else err s.
 
-Definition step (rec : mode -> st -> res) (m : mode) (s : st) : res :=
-  let nil_err (r : res) (k : ast -> st -> res) : res :=      (* `if acl == nil && x == nil { acl = error }` *)
-    bind r (fun v s' => match v with ENil => err s' | _ => k v s' end) in
-  match m with
-  (* ------------------------------------------------------------------ program / statement *)
-  | Program last acc =>
-      if is_eof s then Ok (EList (rev acc)) s
-      else bind (rec Stmt s) (fun v s' =>
-        match v with
-        | ENil => if pos s' =? last then err s' else rec (Program (pos s') acc) s'
-        | _ => if pos s' =? pos s then err s' (* no progress with a node: only the guard ends this *)
-               else rec (Program last (v :: acc)) s'
-        end)
-  | Stmt =>
-      if is_semi (cur s) then Ok ENil (next s) else rec (Lvl 0) s
-  | MainStmt =>
-      match cur s with
-      | SKw KFunction => rec PFunc s
-      | SSemi => Ok ENil (next s)
-      | _ => rec Stmt s
-      end
-  (* ------------------------------------------------------------------ expression levels *)
-  | Lvl n =>
-    match kind n with
-    | KAssign =>
-        bind (rec (Lvl 1) s) (fun e s1 =>
-          if is_variable_node e && is_comma (cur s1) then
-            bind (rec (CommaList [e]) s1) (fun l s2 =>
-              match cur s2 with
-              | SAsg (AEq | AAdd | ASub | AMul | ADiv | ARem | ADot | ACoal) =>
-                  if forallb is_variable_node (as_list l) then rec (ALoop (EVarList (as_list l))) s2 else err s2
-              | _ => rec (ALoop e) s1             (* position reset *)
-              end)
-          else rec (ALoop e) s1)
-    | KTern =>
-        bind (rec (Lvl 2) s) (fun e s1 =>
-          match cur s1 with
-          | SElvis => nil_err (rec (Lvl 1) (next s1)) (fun fv s2 => Ok (ETern e e fv) s2)
-          | SQ =>
-              match peek s1 1, peek s1 2 with
-              | SOther, _ => Unsup
-              | (SIdent _ | SAtom ANull | SAtom AFalse), SAtom (AVar _) => Unsup      (* ?type $v: nullable declaration *)
-              | _, _ =>
-                nil_err (rec (Lvl 1) (next s1)) (fun tv s2 =>
-                  if is_colon (cur s2) then nil_err (rec (Lvl 1) (next s2)) (fun fv s3 => Ok (ETern e tv fv) s3)
-                  else err s2)
-              end
-          | _ => Ok e s1
-          end)
-    | KLoop => bind (rec (Lvl (S n)) s) (fun e s1 => rec (Loop n e) s1)
-    | KAnd => bind (rec (Lvl 6) s) (fun e s1 => match e with ENil => Ok ENil s1 | _ => rec (Loop 5 e) s1 end)
-    | KCmp => bind (rec (Lvl 11) s) (fun e s1 =>
-                match e, cur s1, peek s1 1 with
-                | ENil, SBin OLt, SIdent _ => Unsup     (* <html *)
-                | _, _, _ => rec (Loop 10 e) s1
-                end)
-    | KRange => rec (Lvl 14) s
-    | KUnary =>
-        match cur s with
-        | SBin OSub => nil_err (rec (Lvl 15) (next s)) (fun e s1 => Ok (EUn UNeg e) s1)
-        | SNot => nil_err (rec (Lvl 15) (next s)) (fun e s1 => Ok (EUn UNot e) s1)
-        | SBnot => nil_err (rec (Lvl 15) (next s)) (fun e s1 => Ok (EUn UBnot e) s1)
-        | SBin OBand => Unsup
-        | SIncr => nil_err (rec (Lvl 15) (next s)) (fun e s1 => Ok (EPreInc true e) (skip_semis_all s1))
-        | SDecr => nil_err (rec (Lvl 15) (next s)) (fun e s1 => Ok (EPreInc false e) (skip_semis_all s1))
-        | _ => bind (rec (Lvl 16) s) (fun e s1 => rec (ULoop e) s1)
-        end
-    | KPow =>
-        bind (rec (Lvl 17) s) (fun e s1 =>
-          match cur s1 with
-          | SBin OPow =>
-              let s2 := next s1 in
-              let operand := match cur s2 with SBin OSub | SNot | SBnot => 15 | _ => 16 end in
-              bind (rec (Lvl operand) s2) (fun e2 s3 => Ok (EBin OPow e e2) s3)
-          | _ => Ok e s1
-          end)
-    | KPrim =>
-        let postfix (start : stok) (r : res) : res :=
-          bind r (fun e s1 =>
-            match cur s1 with
-            | SIncr => if statement_kw start then Ok e s1 else Ok (EPostInc true e) (skip_semis_all (next s1))
-            | SDecr => if statement_kw start then Ok e s1 else Ok (EPostInc false e) (skip_semis_all (next s1))
-            | _ => Ok e s1
-            end) in
-        let c := cur s in
-        match c with
-        | SAtom (AVar v) => postfix c (rec (Suffix (EAtom (AVar v))) (next s))
-        | SAtom a => Ok (EAtom a) (next s)
-        | SSemi => err s                               (* ';' where an operand is needed (fix d73680a) *)
-        | SLp =>
-            postfix c
-              (if is_type_cast s then
-                 match peek s 1 with
-                 | SIdent ty => nil_err (rec (Lvl 15) (next (next (next s)))) (fun e s1 =>
-                                   if known_cast ty then Ok (ECallFn ty [e]) s1 else err s1)
-                 | _ => Crash
-                 end
-               else if is_lambda s then Unsup
-               else bind (rec (Lvl 1) (next s)) (fun e s1 => match e with ENil => err s1 | _ => rec (PLoop e) s1 end))
-        | SLb =>                                       (* LbracketParser *)
-            postfix c
-              (let s1 := next s in
-               match cur s1 with
-               | SRb => Ok (EArray []) (next s1)
-               | SComma => rec (ArrSkip [ENullVal]) s1
-               | SOther => Unsup
-               | _ =>
-                 nil_err (rec Stmt s1) (fun e s2 =>
-                   match cur s2 with
-                   | SRb => Ok (EArray [e]) (next s2)
-                   | SComma => rec (ArrAfterComma [e]) s2
-                   | SArrow => bind (rec Stmt (next s2)) (fun v s3 =>
-                                 rec (KvLoopComma [(e, v)]) (if is_comma (cur s3) then next s3 else s3))
-                   | SColon => bind (rec Stmt (next s2)) (fun v s3 => rec (JsonLoopB [(e, v)]) s3)
-                   | _ => err s2
-                   end)
-               end)
-        | SLbrace => postfix c (rec PLbrace s)
-        | SIdent n =>                                  (* IdentParser *)
-            postfix c
-              (let s1 := next s in
-               match cur s1 with
-               | SColon | SLb | SAsg _ | SAtom (AVar _) | SOther => Unsup
-               | SLbrace =>
-                   if (n <? 4) || is_class_name n then Unsup
-                   else bind (rec PLbrace s1) (fun v s2 => Ok (ECallFn n [v]) s2)
-               | SLp => bind (rec (Args []) (next s1)) (fun a s2 => rec (Suffix (ECallFn n (as_list a))) s2)
-               | SBin OLt => if (match peek s1 2 with SBin OGt => true | _ => false end) && is_lp (peek s1 3)
-                             then Unsup else Ok (EIdentStr n) s1
-               | _ => if is_asg (peek s1 1) then Unsup else Ok (EIdentStr n) s1
-               end)
-        | SKw KNew =>
-            postfix c
-              (let s1 := next s in
-               match cur s1 with
-               | SIdent n =>
-                   let s2 := next s1 in
-                   match cur s2 with
-                   | SComma | SRp | SSemi => Ok (ENew n []) s2
-                   | SBin OLt => Unsup
-                   | SLp => bind (rec (Args []) (next s2)) (fun a s3 => Ok (ENew n (as_list a)) s3)
-                   | _ => err s2                                  (* parseFunctionCall: nextAndCheck(LPAREN) *)
-                   end
-               | SAtom (AVar _) | SLp | SKw _ | SOther => Unsup
-               | _ => err s1
-               end)
-        | SKw KEcho =>
-            postfix c (nil_err (rec Stmt (next s)) (fun e s1 => rec (EchoLoop [e]) s1))
-        | SKw KIf =>
-            postfix c
-              (bind (rec IfCond (next s)) (fun cnd s1 =>
-               bind (rec Block s1) (fun th s2 => rec (ElseIfs cnd (as_list th) []) s2)))
-        | SKw KWhile =>
-            postfix c
-              (let s1 := next s in
-               let s2 := if is_lp (cur s1) then next s1 else s1 in
-               nil_err (rec Stmt s2) (fun cnd s3 =>
-                 if is_lp (cur s1) && negb (is_rp (cur s3)) then err s3 else
-                 let s4 := if is_lp (cur s1) then next s3 else s3 in
-                 bind (rec Block s4) (fun b s5 => Ok (SWhile cnd (as_list b)) s5)))
-        | SKw KDo =>
-            postfix c
-              (bind (rec Block (next s)) (fun b s1 =>
-                 if is_kw KWhile (cur s1) then
-                   let s2 := next s1 in
-                   let s3 := if is_lp (cur s2) then next s2 else s2 in
-                   nil_err (rec Stmt s3) (fun cnd s4 =>
-                     if is_lp (cur s2) && negb (is_rp (cur s4)) then err s4 else
-                     let s5 := if is_lp (cur s2) then next s4 else s4 in
-                     let s6 := if is_semi (cur s5) then next s5 else s5 in
-                     Ok (SDoWhile cnd (as_list b)) s6)
-                 else err s1))
-        | SKw KFor =>
-            postfix c
-              (let s1 := next s in
-               let haslp := is_lp (cur s1) in
-               let s2 := if haslp then next s1 else s1 in
-               (* initializers *)
-               let after_inits (inits : list ast) (s3 : st) : res :=
-                 (* condition *)
-                 let after_cond (cnd : ast) (s4 : st) : res :=
-                   let finish (incs : list ast) (s5 : st) : res :=
-                     if haslp && negb (is_rp (cur s5)) then err s5 else              (* nextAndCheck(RPAREN) *)
-                     let s7 := if haslp then next s5 else s5 in
-                     bind (rec Block s7) (fun b s8 => Ok (SFor inits cnd incs (as_list b)) s8) in
-                   if is_semi (cur s4) then finish [] (next s4)
-                   else if is_lbrace (cur s4) || is_rp (cur s4) then finish [] s4
-                   else nil_err (rec MainStmt s4) (fun i s5 => bind (rec (ForIncs inits cnd [i]) s5) (fun l s6 =>
-                          finish (as_list l) (if is_semi (cur s6) then next s6 else s6))) in
-                 if is_semi (cur s3) then after_cond ENil (next s3)
-                 else if is_lbrace (cur s3) then after_cond ENil s3
-                 else bind (rec MainStmt s3) (fun cnd s4 => after_cond cnd (if is_semi (cur s4) then next s4 else s4)) in
-               if is_semi (cur s2) then after_inits [] (next s2)
-               else if is_lbrace (cur s2) then after_inits [] s2
-               else nil_err (rec MainStmt s2) (fun i s3 => bind (rec (ForInits [i]) s3) (fun l s4 =>
-                      after_inits (as_list l) (if is_semi (cur s4) then next s4 else s4))))
-        | SKw KForeach =>
-            postfix c
-              (let s1 := next s in
-               if negb (is_lp (cur s1)) then err s1 else
-               nil_err (rec Stmt (next s1)) (fun arr s2 =>
-                 if negb (is_kw KAs (cur s2)) then err s2 else
-                 bind (rec Stmt (next s2)) (fun k s3 =>
-                   match foreach_target k with
-                   | None => match k with ENil => err s3 | _ => Unsup end
-                   | Some kt =>
-                     let body (key val : ast) (s4 : st) : res :=
-                       if is_rp (cur s4) then bind (rec Block (next s4)) (fun b s5 => Ok (SForeach arr key val (as_list b)) s5)
-                       else err s4 in
-                     if is_arrow (cur s3) then
-                       bind (rec Stmt (next s3)) (fun v s4 =>
-                         match foreach_target v with
-                         | Some vt => body kt vt s4
-                         | None => match v with ENil => err s4 | _ => Unsup end
-                         end)
-                     else body ENil kt s3
-                   end)))
-        | SKw KSwitch =>
-            postfix c
-              (let s1 := next s in
-               let cond :=
-                 if is_lp (cur s1) then
-                   bind (rec Stmt (next s1)) (fun cnd s2 => if is_rp (cur s2) then Ok cnd (next s2) else err s2)
-                 else rec Stmt s1 in
-               nil_err cond (fun cnd s2 =>
-                 if is_lbrace (cur s2) then rec (SwitchLoop cnd [] []) (next s2) else err s2))   (* nextAndCheck(LBRACE) *)
-        | SKw KBreak =>
-            postfix c
-              (let s1 := next s in
-               match cur s1 with
-               | SAtom (ANum neg k) => Ok (SBreak (if neg then 0%N else k)) (next s1)
-               | _ => Ok (SBreak 1%N) s1
-               end)
-        | SKw KContinue =>
-            postfix c
-              (let s1 := next s in
-               match cur s1 with
-               | SAtom (ANum neg k) => Ok (SContinue (if neg then 0%N else k)) (next s1)
-               | _ => Ok (SContinue 1%N) s1
-               end)
-        | SKw KReturn =>
-            postfix c
-              (let s1 := next s in
-               if is_semi (cur s1) then Ok (SReturn ENil) s1
-               else bind (rec Stmt s1) (fun v s2 =>
-                      if is_comma (cur s2) then rec (Returns [v]) s2 else Ok (SReturn v) s2))
-        | SKw KThrow =>
-            postfix c
-              (let s1 := next s in
-               if is_semi (cur s1) then Ok (SThrow (EIdentStr 8)) s1    (* default "Exception" literal *)
-               else nil_err (rec Stmt s1) (fun v s2 => Ok (SThrow v) s2))
-        | SKw KTry =>
-            postfix c (bind (rec Block (next s)) (fun b s1 => rec (Catches (as_list b) []) s1))
-        | SKw KFunction => postfix c (rec PFunc s)
-        | SQ | SOther => Unsup
-        | _ => if missing_operand s c then err s else Ok ENil s      (* no parser for this token *)
-        end
-    end
-  | Loop n acc =>
-    match cur s with
-    | SBin o =>
-        if level o =? n then bind (rec (Lvl (S n)) (next s)) (fun e s1 => rec (Loop n (EBin o acc e)) s1)
-        else Ok acc s
-    | SAtom (ANum true k) =>
-        if n =? 12 then
-          match rest s with
-          | _ :: r => rec (Loop 12 acc) (mkSt (past s) (SBin OSub :: SAtom (ANum false k) :: r) 0)
-          | [] => Crash
-          end
-        else Ok acc s
-    | _ => Ok acc s
-    end
-  | ULoop acc =>
-    match cur s with
-    | SAsg a => bind (rec (Lvl 0) (next s)) (fun e s1 => rec (ULoop (EAsg a acc e)) s1)
-    | _ => Ok acc s
-    end
-  | ALoop acc =>
-    match cur s with
-    | SAsg a => bind (rec (Lvl 0) (next s)) (fun e s1 => rec (ALoop (EAsg a acc e)) s1)
-    | _ => Ok acc s
-    end
-  | PLoop acc =>
-    match cur s with
-    | SBin OAdd => bind (rec (Lvl 13) (next s)) (fun e s1 => rec (PLoop (EBin OAdd acc e)) s1)
-    | SBin OSub => bind (rec (Lvl 13) (next s)) (fun e s1 => rec (PLoop (EBin OSub acc e)) s1)
-    | SRp => rec (Suffix acc) (next s)
-    | _ => err s
-    end
-  | CommaList acc =>
-    if is_comma (cur s) then
-      let s1 := next s in
-      if is_var (cur s1) && (is_comma (peek s1 1) || (match peek s1 1 with SAsg AEq => true | _ => false end))
-      then bind (rec (Lvl 17) s1) (fun e s2 => rec (CommaList (e :: acc)) s2)
-      else bind (rec (Lvl 1) s1) (fun e s2 => rec (CommaList (e :: acc)) s2)
-    else Ok (EList (rev acc)) s
-  (* ------------------------------------------------------------------ suffixes and argument lists *)
-  | Suffix e =>
-    match cur s with
-    | SLp => bind (rec (Args []) (next s)) (fun a s1 => rec (Suffix (ECallExpr e (as_list a))) s1)
-    | SLb =>
-        let s1 := next s in
-        if is_rb (cur s1) then rec (Suffix (EIndex e ENullLit)) (next s1)
-        else nil_err (rec Stmt s1) (fun i s2 =>
-               if is_rb (cur s2) then rec (Suffix (EIndex e i)) (next s2) else err s2)
-    | SOther => Unsup
-    | _ => Ok e s
-    end
-  | Args acc =>
-    if is_rp (cur s) then Ok (EList (rev acc)) (next s)
-    else if (match cur s with SOther => true | _ => false end) then Unsup
-    else if is_colon (peek s 1) && negb (match cur s with SAtom _ | SRp => true | _ => false end) then Unsup   (* named argument *)
-    else
-      nil_err (rec (Lvl 1) s) (fun e s1 =>
-      bind (rec (Suffix e) s1) (fun e' s2 =>
-        if is_comma (cur s2) then rec (Args (e' :: acc)) (next s2)
-        else if is_rp (cur s2) then Ok (EList (rev (e' :: acc))) (next s2)
-        else err s2))
-  (* ------------------------------------------------------------------ blocks *)
-  | Block =>
-    if is_lbrace (cur s) then rec (BlockLoop []) (skip_semis_all (next s))
-    else bind (rec Stmt s) (fun v s1 => Ok (EList (match v with ENil => [] | _ => [v] end)) s1)
-  | BlockLoop acc =>
-    if is_eof s then err s                                   (* nextAndCheck(RBRACE) *)
-    else if is_rbrace (cur s) then Ok (EList (rev acc)) (next s)
-    else bind (rec Stmt s) (fun v s1 =>
-           let s2 := skip_semis_all s1 in
-           match v with
-           | ENil => err s2
-           | _ => if pos s2 =? pos s then err s2 else rec (BlockLoop (v :: acc)) s2
-           end)
-  (* ------------------------------------------------------------------ array / object literals *)
-  | ArrSkip acc =>
-    if is_comma (cur s) then
-      let s1 := next s in
-      if is_rb (cur s1) then Ok (EArray (rev (ENullVal :: acc))) (next s1)
-      else if is_comma (cur s1) then rec (ArrSkip (ENullVal :: acc)) s1
-      else match cur s1 with
-           | SOther => Unsup
-           | _ => nil_err (rec Stmt s1) (fun v s2 => rec (ArrSkip (v :: acc)) s2)
-           end
-    else if is_rb (cur s) then Ok (EArray (rev acc)) (next s) else err s
-  | ArrAfterComma acc =>
-    if is_comma (cur s) then
-      let s1 := next s in
-      if is_rb (cur s1) then rec (ArrAfterComma acc) s1
-      else match cur s1 with
-           | SOther => Unsup
-           | _ =>
-             nil_err (rec Stmt s1) (fun v s2 =>
-               if is_arrow (cur s2) then
-                 bind (rec Stmt (next s2)) (fun w s3 =>
-                   rec (KvLoopComma ((v, w) :: rev (index_pairs 0 (rev acc)))) (if is_comma (cur s3) then next s3 else s3))
-               else rec (ArrAfterComma (v :: acc)) s2)
-           end
-    else if is_rb (cur s) then Ok (EArray (rev acc)) (next s) else err s
-  | KvLoopComma acc =>
-    if is_rb (cur s) then kv_ret (rev acc) (next s)
-    else if is_eof s then err s                           (* the loop can only be ended by the guard *)
-    else bind (rec Stmt s) (fun k s1 =>
-         bind (rec Stmt (next s1)) (fun v s2 =>
-           let s3 := if is_comma (cur s2) then next s2 else s2 in
-           if pos s3 =? pos s then err s3 else rec (KvLoopComma ((k, v) :: acc)) s3))
-  | KvLoop closer acc =>
-    if (if closer then is_rbrace (cur s) else is_rb (cur s)) then kv_ret (rev acc) (next s)
-    else if is_eof s then err s
-    else bind (rec Stmt s) (fun k s1 =>
-         bind (rec Stmt (next s1)) (fun v s2 =>
-           if pos s2 =? pos s then err s2 else rec (KvLoop closer ((k, v) :: acc)) s2))
-  | JsonLoopB acc =>
-    if is_rb (cur s) then kv_ret (rev acc) (next s)
-    else if is_eof s then err s
-    else bind (rec Stmt s) (fun k s1 =>
-         bind (rec Stmt (next s1)) (fun v s2 =>
-           if pos s2 =? pos s then err s2 else rec (JsonLoopB ((k, v) :: acc)) s2))
-  | JsonLoop acc =>
-    if is_rbrace (cur s) then kv_ret (rev acc) (next s)
-    else if is_comma (cur s) && is_rbrace (peek s 1) then kv_ret (rev acc) (next (next s))
-    else if is_eof s then err s
-    else
-      if negb (is_comma (cur s)) then err s else           (* nextAndCheck(COMMA) *)
-      let s1 := next s in
-      let key :=
-        if is_colon (peek s1 1) then
-          match cur s1 with
-          | SIdent n => Ok (EIdentStr n) (next s1)
-          | SAtom (AStr k) => Ok (EAtom (AStr k)) (next s1)
-          | _ => Unsup
-          end
-        else rec Stmt s1 in
-      bind key (fun k s2 =>
-        if negb (is_colon (cur s2)) then err s2 else         (* nextAndCheck(COLON) *)
-        let s3 := next s2 in
-        bind (rec Stmt s3) (fun v s4 =>
-          if pos s4 =? pos s then err s4 else rec (JsonLoop ((k, v) :: acc)) s4))
-  (* ------------------------------------------------------------------ statements *)
-  | EchoLoop acc =>
-    if is_comma (cur s) then nil_err (rec Stmt (next s)) (fun e s1 => rec (EchoLoop (e :: acc)) s1)
-    else Ok (SEcho (rev acc)) s
-  | IfCond =>
-    if is_lp (cur s) then
-      nil_err (rec Stmt (next s)) (fun cnd s1 => if is_rp (cur s1) then Ok cnd (next s1) else err s1)
-    else
-      nil_err (rec Stmt s) (fun first s1 =>
-        if is_semi (cur s1) then
-          nil_err (rec Stmt (next s1)) (fun cnd s2 =>
-            if is_semi (cur s2) then bind (rec Stmt (next s2)) (fun _ s3 => Ok cnd s3) else Ok cnd s2)
-        else Ok first s1)
-  | ElseIfs cnd th acc =>
-    let elseif1 := is_kw KElseIf (cur s) in
-    let elseif2 := is_kw KElse (cur s) && is_kw KIf (peek s 1) in
-    if elseif1 || elseif2 then
-      let s1 := if elseif1 then next s else next (next s) in
-      bind (rec IfCond s1) (fun c2 s2 =>
-      bind (rec Block s2) (fun b s3 => rec (ElseIfs cnd th ((c2, as_list b) :: acc)) s3))
-    else if is_kw KElse (cur s) then
-      bind (rec Block (next s)) (fun b s1 => Ok (SIf cnd th (rev acc) (as_list b)) s1)
-    else Ok (SIf cnd th (rev acc) []) s
-  | ForInits acc =>
-    if is_comma (cur s) then nil_err (rec MainStmt (next s)) (fun i s1 => rec (ForInits (i :: acc)) s1)
-    else Ok (EList (rev acc)) s
-  | ForIncs inits cnd acc =>
-    if is_comma (cur s) then nil_err (rec MainStmt (next s)) (fun i s1 => rec (ForIncs inits cnd (i :: acc)) s1)
-    else Ok (EList (rev acc)) s
-  | SwitchLoop cnd cases def =>
-    if is_rbrace (cur s) then Ok (SSwitch cnd (rev cases) def) (next s)
-    else if is_eof s then err s                                      (* nextAndCheck(RBRACE) *)
-    else if is_kw KDefault (cur s) then
-      let s1 := next s in
-      if negb (is_colon (cur s1)) then err s1 else                     (* nextAndCheck(COLON) *)
-      let s2 := next s1 in
-      bind (rec (CaseBody true []) s2) (fun b s3 => rec (SwitchLoop cnd cases (as_list b)) s3)
-    else if is_kw KCase (cur s) then
-      nil_err (rec Stmt (next s)) (fun v s1 =>
-        let s2 := if is_colon (cur s1) then next s1 else s1 in
-        bind (rec (CaseBody false []) s2) (fun b s3 => rec (SwitchLoop cnd ((v, as_list b) :: cases) def) s3))
-    else err s
-  | CaseBody isdef acc =>
-    if is_eof s || is_kw KCase (cur s) || is_rbrace (cur s) || (negb isdef && is_kw KDefault (cur s))
-    then Ok (EList (rev acc)) s
-    else if is_lbrace (cur s) then rec Block s                          (* statements = the block *)
-    else if is_kw KBreak (cur s) then
-      bind (rec Stmt s) (fun v s1 =>
-        Ok (EList (rev (match v with ENil => acc | _ => v :: acc end))) (if is_semi (cur s1) then next s1 else s1))
-    else
-      bind (rec Stmt s) (fun v s1 =>
-        let s2 := if is_semi (cur s1) then next s1 else s1 in
-        if pos s2 =? pos s then err s2                                  (* only the guard ends this *)
-        else rec (CaseBody isdef (match v with ENil => acc | _ => v :: acc end)) s2)
-  | Returns acc =>
-    if is_comma (cur s) then bind (rec Stmt (next s)) (fun v s1 =>
-      if is_nil v || existsb is_nil acc then err s1 else rec (Returns (v :: acc)) s1)
-    else Ok (SReturns (rev acc)) s
-  | Catches body acc =>
-    if is_kw KCatch (cur s) then
-      let s1 := next s in
-      if negb (is_lp (cur s1)) then err s1 else
-      bind (rec (CatchTypes []) (next s1)) (fun tys s2 =>
-        let types := match tys with EList l => map (fun x => match x with EIdentStr n => n | _ => 0 end) l | _ => [] end in
-        if is_var (cur s2) then
-          bind (rec Stmt s2) (fun v s3 =>
-            if is_variable_node v then
-              if is_rp (cur s3) then bind (rec Block (next s3)) (fun b s4 => rec (Catches body ((types, v, as_list b) :: acc)) s4)
-              else err s3
-            else err s3)
-        else if is_rp (cur s2) then
-          bind (rec Block (next s2)) (fun b s3 => rec (Catches body ((types, ENil, as_list b) :: acc)) s3)
-        else err s2)
-    else if is_kw KFinally (cur s) then
-      bind (rec Block (next s)) (fun b s1 => Ok (STry body (rev acc) (as_list b)) s1)
-    else Ok (STry body (rev acc) []) s
-  | CatchTypes acc =>
-    match cur s with
-    | SIdent n =>
-        let s1 := next s in
-        match cur s1 with
-        | SBin OBor => rec (CatchTypes (n :: acc)) (next s1)
-        | _ => Ok (EList (map EIdentStr (rev (n :: acc)))) s1
-        end
-    | _ => Ok (EList (map EIdentStr (match acc with [] => [8] | _ => rev acc end))) s      (* none: "Exception" *)
-    end
-  | Params acc =>
-    match cur s with
-    | SAtom (AVar v) =>
-        let s1 := next s in
-        let fin (d : ast) (s2 : st) : res :=
-          let acc' := EAsg AEq (EAtom (AVar v)) d :: acc in
-          if is_comma (cur s2) then
-            let s3 := next s2 in
-            if is_rp (cur s3) then Ok (EList (rev acc')) (next s3) else rec (Params acc') s3
-          else if is_rp (cur s2) then Ok (EList (rev acc')) (next s2)
-          else err s2 in
-        match cur s1 with
-        | SAsg AEq => bind (rec Stmt (next s1)) (fun d s2 => fin d s2)
-        | SColon | SIdent _ | SAtom (ANum _ _) | SAtom (AStr _) | SAtom ANull | SAtom AFalse | SOther => Unsup   (* types *)
-        | _ => fin ENil s1
-        end
-    | SIdent _ | SAtom _ | SQ | SBin OBand | SOther => Unsup      (* typed / reference / variadic parameters *)
-    | _ => err s                                                  (* "参数缺少变量名" *)
-    end
-  | PLbrace =>
-    let s1 := next s in
-               if is_rbrace (cur s1) then Ok (EKv []) (next s1)
-               else
-                 let key :=
-                   if is_colon (peek s1 1) then
-                     match cur s1 with
-                     | SIdent n => Ok (EIdentStr n) (next s1)
-                     | SAtom (AStr k) => Ok (EAtom (AStr k)) (next s1)
-                     | _ => Unsup
-                     end
-                   else rec Stmt s1 in
-                 bind key (fun k s2 =>
-                   match cur s2 with
-                   | SArrow => bind (rec Stmt (next s2)) (fun v s3 => rec (KvLoop true [(k, v)]) s3)
-                   | SColon => bind (rec Stmt (next s2)) (fun v s3 => rec (JsonLoop [(k, v)]) s3)
-                   | SRbrace => Ok (EKv []) (next s2)
-                   | _ => err s2
-                   end)
-  | PFunc =>
-    let s1 := next s in
-               match cur s1 with
-               | SBin OBand | SLp => Unsup                       (* & reference return, closure *)
-               | SIdent n =>
-                   let s2 := next s1 in
-                   if negb (is_lp (cur s2)) then err s2 else
-                   let s3 := next s2 in
-                   bind (if is_rp (cur s3) then Ok (EList []) (next s3) else rec (Params []) s3) (fun ps s4 =>
-                     if is_colon (cur s4) then Unsup              (* return type *)
-                     else bind (rec Block s4) (fun b s5 =>
-                       Ok (SFunc n (map (fun p => match p with EAsg AEq (EAtom (AVar v)) d => (v, d) | _ => (0, ENil) end) (as_list ps))
-                                 (as_list b)) s5))
-               | _ => err s1
-               end
+(* `if acl == nil && x == nil { acl = error }` *)
+Definition nil_err (r : res) (k : ast -> st -> res) : res :=
+  bind r (fun v s' => if is_nil v then err s' else k v s').
+
+(* parsePrimary's trailing `++` / `--` after the sub-parser selected by the token `start` *)
+Definition postfix (start : stok) (r : res) : res :=
+  bind r (fun e s1 =>
+    match cur s1 with
+    | SIncr => if statement_kw start then Ok e s1 else Ok (EPostInc true e) (skip_semis_all (next s1))
+    | SDecr => if statement_kw start then Ok e s1 else Ok (EPostInc false e) (skip_semis_all (next s1))
+    | _ => Ok e s1
+    end).
+
+(* The parser is one function `step rec m s` (rec = the parser one unit of fuel down); it is written as one
+   definition per mode / per sub-parser so that the proofs can treat them one at a time. *)
+Section Step.
+Variable rec : mode -> st -> res.
+
+(* ------------------------------------------------------------------ program / statement *)
+Definition step_program (last : nat) (acc : list ast) (s : st) : res :=
+  if is_eof s then Ok (EList (rev acc)) s
+  else bind (rec Stmt s) (fun v s' =>
+    if is_nil v then (if pos s' =? last then err s' else rec (Program (pos s') acc) s')
+    else if pos s' =? pos s then err s' (* no progress with a node: only the guard ends this *)
+    else rec (Program last (v :: acc)) s').
+
+Definition step_stmt (s : st) : res :=
+  if is_semi (cur s) then Ok ENil (next s) else rec (Lvl 0) s.
+
+Definition step_mainstmt (s : st) : res :=
+  match cur s with
+  | SKw KFunction => rec PFunc s
+  | SSemi => Ok ENil (next s)
+  | _ => rec Stmt s
   end.
+
+(* ------------------------------------------------------------------ expression levels *)
+Definition step_assign (s : st) : res :=
+  bind (rec (Lvl 1) s) (fun e s1 =>
+    if is_variable_node e && is_comma (cur s1) then
+      bind (rec (CommaList [e]) s1) (fun l s2 =>
+        match cur s2 with
+        | SAsg (AEq | AAdd | ASub | AMul | ADiv | ARem | ADot | ACoal) =>
+            if forallb is_variable_node (as_list l) then rec (ALoop (EVarList (as_list l))) s2 else err s2
+        | _ => rec (ALoop e) s1             (* position reset *)
+        end)
+    else rec (ALoop e) s1).
+
+Definition step_tern (s : st) : res :=
+  bind (rec (Lvl 2) s) (fun e s1 =>
+    match cur s1 with
+    | SElvis => nil_err (rec (Lvl 1) (next s1)) (fun fv s2 => Ok (ETern e e fv) s2)
+    | SQ =>
+        match peek s1 1, peek s1 2 with
+        | SOther, _ => Unsup
+        | (SIdent _ | SAtom ANull | SAtom AFalse), SAtom (AVar _) => Unsup      (* ?type $v: nullable declaration *)
+        | _, _ =>
+          nil_err (rec (Lvl 1) (next s1)) (fun tv s2 =>
+            if is_colon (cur s2) then nil_err (rec (Lvl 1) (next s2)) (fun fv s3 => Ok (ETern e tv fv) s3)
+            else err s2)
+        end
+    | _ => Ok e s1
+    end).
+
+Definition step_unary (s : st) : res :=
+  match cur s with
+  | SBin OSub => nil_err (rec (Lvl 15) (next s)) (fun e s1 => Ok (EUn UNeg e) s1)
+  | SNot => nil_err (rec (Lvl 15) (next s)) (fun e s1 => Ok (EUn UNot e) s1)
+  | SBnot => nil_err (rec (Lvl 15) (next s)) (fun e s1 => Ok (EUn UBnot e) s1)
+  | SBin OBand => Unsup
+  | SIncr => nil_err (rec (Lvl 15) (next s)) (fun e s1 => Ok (EPreInc true e) (skip_semis_all s1))
+  | SDecr => nil_err (rec (Lvl 15) (next s)) (fun e s1 => Ok (EPreInc false e) (skip_semis_all s1))
+  | _ => bind (rec (Lvl 16) s) (fun e s1 => rec (ULoop e) s1)
+  end.
+
+Definition step_pow (s : st) : res :=
+  bind (rec (Lvl 17) s) (fun e s1 =>
+    match cur s1 with
+    | SBin OPow =>
+        let s2 := next s1 in
+        let operand := match cur s2 with SBin OSub | SNot | SBnot => 15 | _ => 16 end in
+        bind (rec (Lvl operand) s2) (fun e2 s3 => Ok (EBin OPow e e2) s3)
+    | _ => Ok e s1
+    end).
+
+(* --- parsePrimary's router: one definition per sub-parser --- *)
+Definition prim_paren (s : st) : res :=                    (* LparenParser *)
+  if is_type_cast s then
+    match peek s 1 with
+    | SIdent ty => nil_err (rec (Lvl 15) (next (next (next s)))) (fun e s1 =>
+                      if known_cast ty then Ok (ECallFn ty [e]) s1 else err s1)
+    | _ => Crash
+    end
+  else if is_lambda s then Unsup
+  else bind (rec (Lvl 1) (next s)) (fun e s1 => if is_nil e then err s1 else rec (PLoop e) s1).
+
+Definition prim_bracket (s : st) : res :=                  (* LbracketParser *)
+  let s1 := next s in
+  match cur s1 with
+  | SRb => Ok (EArray []) (next s1)
+  | SComma => rec (ArrSkip [ENullVal]) s1
+  | SOther => Unsup
+  | _ =>
+    nil_err (rec Stmt s1) (fun e s2 =>
+      match cur s2 with
+      | SRb => Ok (EArray [e]) (next s2)
+      | SComma => rec (ArrAfterComma [e]) s2
+      | SArrow => bind (rec Stmt (next s2)) (fun v s3 =>
+                    rec (KvLoopComma [(e, v)]) (if is_comma (cur s3) then next s3 else s3))
+      | SColon => bind (rec Stmt (next s2)) (fun v s3 => rec (JsonLoopB [(e, v)]) s3)
+      | _ => err s2
+      end)
+  end.
+
+Definition prim_ident (n : nat) (s : st) : res :=          (* IdentParser *)
+  let s1 := next s in
+  match cur s1 with
+  | SColon | SLb | SAsg _ | SAtom (AVar _) | SOther => Unsup
+  | SLbrace =>
+      if (n <? 4) || is_class_name n then Unsup
+      else bind (rec PLbrace s1) (fun v s2 => Ok (ECallFn n [v]) s2)
+  | SLp => bind (rec (Args []) (next s1)) (fun a s2 => rec (Suffix (ECallFn n (as_list a))) s2)
+  | SBin OLt => if (match peek s1 2 with SBin OGt => true | _ => false end) && is_lp (peek s1 3)
+                then Unsup else Ok (EIdentStr n) s1
+  | _ => if is_asg (peek s1 1) then Unsup else Ok (EIdentStr n) s1
+  end.
+
+Definition prim_new (s : st) : res :=                      (* NewStructParser *)
+  let s1 := next s in
+  match cur s1 with
+  | SIdent n =>
+      let s2 := next s1 in
+      match cur s2 with
+      | SComma | SRp | SSemi => Ok (ENew n []) s2
+      | SBin OLt => Unsup
+      | SLp => bind (rec (Args []) (next s2)) (fun a s3 => Ok (ENew n (as_list a)) s3)
+      | _ => err s2                                  (* parseFunctionCall: nextAndCheck(LPAREN) *)
+      end
+  | SAtom (AVar _) | SLp | SKw _ | SOther => Unsup
+  | _ => err s1
+  end.
+
+Definition prim_if (s : st) : res :=
+  bind (rec IfCond (next s)) (fun cnd s1 =>
+  bind (rec Block s1) (fun th s2 => rec (ElseIfs cnd (as_list th) []) s2)).
+
+Definition prim_while (s : st) : res :=
+  let s1 := next s in
+  let s2 := if is_lp (cur s1) then next s1 else s1 in
+  nil_err (rec Stmt s2) (fun cnd s3 =>
+    if is_lp (cur s1) && negb (is_rp (cur s3)) then err s3 else
+    let s4 := if is_lp (cur s1) then next s3 else s3 in
+    bind (rec Block s4) (fun b s5 => Ok (SWhile cnd (as_list b)) s5)).
+
+Definition prim_do (s : st) : res :=
+  bind (rec Block (next s)) (fun b s1 =>
+    if is_kw KWhile (cur s1) then
+      let s2 := next s1 in
+      let s3 := if is_lp (cur s2) then next s2 else s2 in
+      nil_err (rec Stmt s3) (fun cnd s4 =>
+        if is_lp (cur s2) && negb (is_rp (cur s4)) then err s4 else
+        let s5 := if is_lp (cur s2) then next s4 else s4 in
+        let s6 := if is_semi (cur s5) then next s5 else s5 in
+        Ok (SDoWhile cnd (as_list b)) s6)
+    else err s1).
+
+Definition for_finish (haslp : bool) (inits : list ast) (cnd : ast) (incs : list ast) (s5 : st) : res :=
+  if haslp && negb (is_rp (cur s5)) then err s5 else              (* nextAndCheck(RPAREN) *)
+  let s7 := if haslp then next s5 else s5 in
+  bind (rec Block s7) (fun b s8 => Ok (SFor inits cnd incs (as_list b)) s8).
+
+Definition for_after_cond (haslp : bool) (inits : list ast) (cnd : ast) (s4 : st) : res :=
+  if is_semi (cur s4) then for_finish haslp inits cnd [] (next s4)
+  else if is_lbrace (cur s4) || is_rp (cur s4) then for_finish haslp inits cnd [] s4
+  else nil_err (rec MainStmt s4) (fun i s5 => bind (rec (ForIncs inits cnd [i]) s5) (fun l s6 =>
+         for_finish haslp inits cnd (as_list l) (if is_semi (cur s6) then next s6 else s6))).
+
+Definition for_after_inits (haslp : bool) (inits : list ast) (s3 : st) : res :=
+  if is_semi (cur s3) then for_after_cond haslp inits ENil (next s3)
+  else if is_lbrace (cur s3) then for_after_cond haslp inits ENil s3
+  else bind (rec MainStmt s3) (fun cnd s4 => for_after_cond haslp inits cnd (if is_semi (cur s4) then next s4 else s4)).
+
+Definition prim_for (s : st) : res :=
+  let s1 := next s in
+  let haslp := is_lp (cur s1) in
+  let s2 := if haslp then next s1 else s1 in
+  if is_semi (cur s2) then for_after_inits haslp [] (next s2)
+  else if is_lbrace (cur s2) then for_after_inits haslp [] s2
+  else nil_err (rec MainStmt s2) (fun i s3 => bind (rec (ForInits [i]) s3) (fun l s4 =>
+         for_after_inits haslp (as_list l) (if is_semi (cur s4) then next s4 else s4))).
+
+Definition foreach_body (arr key val : ast) (s4 : st) : res :=
+  if is_rp (cur s4) then bind (rec Block (next s4)) (fun b s5 => Ok (SForeach arr key val (as_list b)) s5)
+  else err s4.
+
+Definition prim_foreach (s : st) : res :=
+  let s1 := next s in
+  if negb (is_lp (cur s1)) then err s1 else
+  nil_err (rec Stmt (next s1)) (fun arr s2 =>
+    if negb (is_kw KAs (cur s2)) then err s2 else
+    bind (rec Stmt (next s2)) (fun k s3 =>
+      match foreach_target k with
+      | None => if is_nil k then err s3 else Unsup
+      | Some kt =>
+        if is_arrow (cur s3) then
+          bind (rec Stmt (next s3)) (fun v s4 =>
+            match foreach_target v with
+            | Some vt => foreach_body arr kt vt s4
+            | None => if is_nil v then err s4 else Unsup
+            end)
+        else foreach_body arr ENil kt s3
+      end)).
+
+Definition prim_switch (s : st) : res :=
+  let s1 := next s in
+  let cond :=
+    if is_lp (cur s1) then
+      bind (rec Stmt (next s1)) (fun cnd s2 => if is_rp (cur s2) then Ok cnd (next s2) else err s2)
+    else rec Stmt s1 in
+  nil_err cond (fun cnd s2 =>
+    if is_lbrace (cur s2) then rec (SwitchLoop cnd [] []) (next s2) else err s2).   (* nextAndCheck(LBRACE) *)
+
+Definition prim_break (s : st) : res :=
+  let s1 := next s in
+  match cur s1 with
+  | SAtom (ANum neg k) => Ok (SBreak (if neg then 0%N else k)) (next s1)
+  | _ => Ok (SBreak 1%N) s1
+  end.
+
+Definition prim_continue (s : st) : res :=
+  let s1 := next s in
+  match cur s1 with
+  | SAtom (ANum neg k) => Ok (SContinue (if neg then 0%N else k)) (next s1)
+  | _ => Ok (SContinue 1%N) s1
+  end.
+
+Definition prim_return (s : st) : res :=
+  let s1 := next s in
+  if is_semi (cur s1) then Ok (SReturn ENil) s1
+  else bind (rec Stmt s1) (fun v s2 =>
+         if is_comma (cur s2) then rec (Returns [v]) s2 else Ok (SReturn v) s2).
+
+Definition prim_throw (s : st) : res :=
+  let s1 := next s in
+  if is_semi (cur s1) then Ok (SThrow (EIdentStr 8)) s1    (* default "Exception" literal *)
+  else nil_err (rec Stmt s1) (fun v s2 => Ok (SThrow v) s2).
+
+Definition step_prim (s : st) : res :=
+  let c := cur s in
+  match c with
+  | SAtom (AVar v) => postfix c (rec (Suffix (EAtom (AVar v))) (next s))
+  | SAtom a => Ok (EAtom a) (next s)
+  | SSemi => err s                               (* ';' where an operand is needed (fix d73680a) *)
+  | SLp => postfix c (prim_paren s)
+  | SLb => postfix c (prim_bracket s)
+  | SLbrace => postfix c (rec PLbrace s)
+  | SIdent n => postfix c (prim_ident n s)
+  | SKw KNew => postfix c (prim_new s)
+  | SKw KEcho => postfix c (nil_err (rec Stmt (next s)) (fun e s1 => rec (EchoLoop [e]) s1))
+  | SKw KIf => postfix c (prim_if s)
+  | SKw KWhile => postfix c (prim_while s)
+  | SKw KDo => postfix c (prim_do s)
+  | SKw KFor => postfix c (prim_for s)
+  | SKw KForeach => postfix c (prim_foreach s)
+  | SKw KSwitch => postfix c (prim_switch s)
+  | SKw KBreak => postfix c (prim_break s)
+  | SKw KContinue => postfix c (prim_continue s)
+  | SKw KReturn => postfix c (prim_return s)
+  | SKw KThrow => postfix c (prim_throw s)
+  | SKw KTry => postfix c (bind (rec Block (next s)) (fun b s1 => rec (Catches (as_list b) []) s1))
+  | SKw KFunction => postfix c (rec PFunc s)
+  | SQ | SOther => Unsup
+  | _ => if missing_operand s c then err s else Ok ENil s      (* no parser for this token *)
+  end.
+
+Definition step_lvl (n : nat) (s : st) : res :=
+  match kind n with
+  | KAssign => step_assign s
+  | KTern => step_tern s
+  | KLoop => bind (rec (Lvl (S n)) s) (fun e s1 => rec (Loop n e) s1)
+  | KAnd => bind (rec (Lvl 6) s) (fun e s1 => if is_nil e then Ok ENil s1 else rec (Loop 5 e) s1)
+  | KCmp => bind (rec (Lvl 11) s) (fun e s1 =>
+              if is_nil e && (match cur s1, peek s1 1 with SBin OLt, SIdent _ => true | _, _ => false end)
+              then Unsup     (* <html *)
+              else rec (Loop 10 e) s1)
+  | KRange => rec (Lvl 14) s
+  | KUnary => step_unary s
+  | KPow => step_pow s
+  | KPrim => step_prim s
+  end.
+
+(* the signed-number token split of parseTerm (splitSignedNumber): `-k` becomes `-` `k` in the token list *)
+Definition split_signed (k : N) (s : st) : st :=
+  match rest s with
+  | _ :: r => mkSt (past s) (SBin OSub :: SAtom (ANum false k) :: r) (over s)
+  | [] => s
+  end.
+
+Definition step_loop (n : nat) (acc : ast) (s : st) : res :=
+  match cur s with
+  | SBin o =>
+      if level o =? n then bind (rec (Lvl (S n)) (next s)) (fun e s1 => rec (Loop n (EBin o acc e)) s1)
+      else Ok acc s
+  | SAtom (ANum true k) =>
+      if n =? 12 then
+        match rest s with
+        | _ :: _ => rec (Loop 12 acc) (split_signed k s)
+        | [] => Crash
+        end
+      else Ok acc s
+  | _ => Ok acc s
+  end.
+
+Definition step_uloop (acc : ast) (s : st) : res :=
+  match cur s with
+  | SAsg a => bind (rec (Lvl 0) (next s)) (fun e s1 => rec (ULoop (EAsg a acc e)) s1)
+  | _ => Ok acc s
+  end.
+
+Definition step_aloop (acc : ast) (s : st) : res :=
+  match cur s with
+  | SAsg a => bind (rec (Lvl 0) (next s)) (fun e s1 => rec (ALoop (EAsg a acc e)) s1)
+  | _ => Ok acc s
+  end.
+
+Definition step_ploop (acc : ast) (s : st) : res :=
+  match cur s with
+  | SBin OAdd => bind (rec (Lvl 13) (next s)) (fun e s1 => rec (PLoop (EBin OAdd acc e)) s1)
+  | SBin OSub => bind (rec (Lvl 13) (next s)) (fun e s1 => rec (PLoop (EBin OSub acc e)) s1)
+  | SRp => rec (Suffix acc) (next s)
+  | _ => err s          (* no ')': "缺少右括号" (the previous-token tolerance was removed by fix 36c211b) *)
+  end.
+
+Definition step_commalist (acc : list ast) (s : st) : res :=
+  if is_comma (cur s) then
+    let s1 := next s in
+    if is_var (cur s1) && (is_comma (peek s1 1) || (match peek s1 1 with SAsg AEq => true | _ => false end))
+    then bind (rec (Lvl 17) s1) (fun e s2 => rec (CommaList (e :: acc)) s2)
+    else bind (rec (Lvl 1) s1) (fun e s2 => rec (CommaList (e :: acc)) s2)
+  else Ok (EList (rev acc)) s.
+
+(* ------------------------------------------------------------------ suffixes and argument lists *)
+Definition step_suffix (e : ast) (s : st) : res :=
+  match cur s with
+  | SLp => bind (rec (Args []) (next s)) (fun a s1 => rec (Suffix (ECallExpr e (as_list a))) s1)
+  | SLb =>
+      let s1 := next s in
+      if is_rb (cur s1) then rec (Suffix (EIndex e ENullLit)) (next s1)
+      else nil_err (rec Stmt s1) (fun i s2 =>
+             if is_rb (cur s2) then rec (Suffix (EIndex e i)) (next s2) else err s2)
+  | SOther => Unsup
+  | _ => Ok e s
+  end.
+
+Definition step_args (acc : list ast) (s : st) : res :=
+  if is_rp (cur s) then Ok (EList (rev acc)) (next s)
+  else if (match cur s with SOther => true | _ => false end) then Unsup
+  else if is_colon (peek s 1) && negb (match cur s with SAtom _ | SRp => true | _ => false end) then Unsup   (* named argument *)
+  else
+    nil_err (rec (Lvl 1) s) (fun e s1 =>
+    bind (rec (Suffix e) s1) (fun e' s2 =>
+      if is_comma (cur s2) then rec (Args (e' :: acc)) (next s2)
+      else if is_rp (cur s2) then Ok (EList (rev (e' :: acc))) (next s2)
+      else err s2)).
+
+(* ------------------------------------------------------------------ blocks *)
+Definition step_block (s : st) : res :=
+  if is_lbrace (cur s) then rec (BlockLoop []) (skip_semis_all (next s))
+  else bind (rec Stmt s) (fun v s1 => Ok (EList (if is_nil v then [] else [v])) s1).
+
+Definition step_blockloop (acc : list ast) (s : st) : res :=
+  if is_eof s then err s                                   (* nextAndCheck(RBRACE) *)
+  else if is_rbrace (cur s) then Ok (EList (rev acc)) (next s)
+  else bind (rec Stmt s) (fun v s1 =>
+         let s2 := skip_semis_all s1 in
+         if is_nil v then err s2
+         else if pos s2 =? pos s then err s2 else rec (BlockLoop (v :: acc)) s2).
+
+(* ------------------------------------------------------------------ array / object literals *)
+Definition step_arrskip (acc : list ast) (s : st) : res :=
+  if is_comma (cur s) then
+    let s1 := next s in
+    if is_rb (cur s1) then Ok (EArray (rev (ENullVal :: acc))) (next s1)
+    else if is_comma (cur s1) then rec (ArrSkip (ENullVal :: acc)) s1
+    else match cur s1 with
+         | SOther => Unsup
+         | _ => nil_err (rec Stmt s1) (fun v s2 => rec (ArrSkip (v :: acc)) s2)
+         end
+  else if is_rb (cur s) then Ok (EArray (rev acc)) (next s) else err s.
+
+Definition step_arraftercomma (acc : list ast) (s : st) : res :=
+  if is_comma (cur s) then
+    let s1 := next s in
+    if is_rb (cur s1) then rec (ArrAfterComma acc) s1
+    else match cur s1 with
+         | SOther => Unsup
+         | _ =>
+           nil_err (rec Stmt s1) (fun v s2 =>
+             if is_arrow (cur s2) then
+               bind (rec Stmt (next s2)) (fun w s3 =>
+                 rec (KvLoopComma ((v, w) :: rev (index_pairs 0 (rev acc)))) (if is_comma (cur s3) then next s3 else s3))
+             else rec (ArrAfterComma (v :: acc)) s2)
+         end
+  else if is_rb (cur s) then Ok (EArray (rev acc)) (next s) else err s.
+
+Definition step_kvloopcomma (acc : list (ast * ast)) (s : st) : res :=
+  if is_rb (cur s) then kv_ret (rev acc) (next s)
+  else if is_eof s then err s                           (* the loop can only be ended by the guard *)
+  else bind (rec Stmt s) (fun k s1 =>
+       bind (rec Stmt (next s1)) (fun v s2 =>
+         let s3 := if is_comma (cur s2) then next s2 else s2 in
+         if pos s3 =? pos s then err s3 else rec (KvLoopComma ((k, v) :: acc)) s3)).
+
+Definition step_kvloop (closer : bool) (acc : list (ast * ast)) (s : st) : res :=
+  if (if closer then is_rbrace (cur s) else is_rb (cur s)) then kv_ret (rev acc) (next s)
+  else if is_eof s then err s
+  else bind (rec Stmt s) (fun k s1 =>
+       bind (rec Stmt (next s1)) (fun v s2 =>
+         if pos s2 =? pos s then err s2 else rec (KvLoop closer ((k, v) :: acc)) s2)).
+
+Definition step_jsonloopb (acc : list (ast * ast)) (s : st) : res :=
+  if is_rb (cur s) then kv_ret (rev acc) (next s)
+  else if is_eof s then err s
+  else bind (rec Stmt s) (fun k s1 =>
+       bind (rec Stmt (next s1)) (fun v s2 =>
+         if pos s2 =? pos s then err s2 else rec (JsonLoopB ((k, v) :: acc)) s2)).
+
+Definition json_key (s1 : st) : res :=
+  if is_colon (peek s1 1) then
+    match cur s1 with
+    | SIdent n => Ok (EIdentStr n) (next s1)
+    | SAtom (AStr k) => Ok (EAtom (AStr k)) (next s1)
+    | _ => Unsup
+    end
+  else rec Stmt s1.
+
+Definition step_jsonloop (acc : list (ast * ast)) (s : st) : res :=
+  if is_rbrace (cur s) then kv_ret (rev acc) (next s)
+  else if is_comma (cur s) && is_rbrace (peek s 1) then kv_ret (rev acc) (next (next s))
+  else if is_eof s then err s
+  else
+    if negb (is_comma (cur s)) then err s else           (* nextAndCheck(COMMA) *)
+    let s1 := next s in
+    bind (json_key s1) (fun k s2 =>
+      if negb (is_colon (cur s2)) then err s2 else         (* nextAndCheck(COLON) *)
+      let s3 := next s2 in
+      bind (rec Stmt s3) (fun v s4 =>
+        if pos s4 =? pos s then err s4 else rec (JsonLoop ((k, v) :: acc)) s4)).
+
+(* ------------------------------------------------------------------ statements *)
+Definition step_echoloop (acc : list ast) (s : st) : res :=
+  if is_comma (cur s) then nil_err (rec Stmt (next s)) (fun e s1 => rec (EchoLoop (e :: acc)) s1)
+  else Ok (SEcho (rev acc)) s.
+
+Definition step_ifcond (s : st) : res :=
+  if is_lp (cur s) then
+    nil_err (rec Stmt (next s)) (fun cnd s1 => if is_rp (cur s1) then Ok cnd (next s1) else err s1)
+  else
+    nil_err (rec Stmt s) (fun first s1 =>
+      if is_semi (cur s1) then
+        nil_err (rec Stmt (next s1)) (fun cnd s2 =>
+          if is_semi (cur s2) then bind (rec Stmt (next s2)) (fun _ s3 => Ok cnd s3) else Ok cnd s2)
+      else Ok first s1).
+
+Definition step_elseifs (cnd : ast) (th : list ast) (acc : list (ast * list ast)) (s : st) : res :=
+  let elseif1 := is_kw KElseIf (cur s) in
+  let elseif2 := is_kw KElse (cur s) && is_kw KIf (peek s 1) in
+  if elseif1 || elseif2 then
+    let s1 := if elseif1 then next s else next (next s) in
+    bind (rec IfCond s1) (fun c2 s2 =>
+    bind (rec Block s2) (fun b s3 => rec (ElseIfs cnd th ((c2, as_list b) :: acc)) s3))
+  else if is_kw KElse (cur s) then
+    bind (rec Block (next s)) (fun b s1 => Ok (SIf cnd th (rev acc) (as_list b)) s1)
+  else Ok (SIf cnd th (rev acc) []) s.
+
+Definition step_forinits (acc : list ast) (s : st) : res :=
+  if is_comma (cur s) then nil_err (rec MainStmt (next s)) (fun i s1 => rec (ForInits (i :: acc)) s1)
+  else Ok (EList (rev acc)) s.
+
+Definition step_forincs (inits : list ast) (cnd : ast) (acc : list ast) (s : st) : res :=
+  if is_comma (cur s) then nil_err (rec MainStmt (next s)) (fun i s1 => rec (ForIncs inits cnd (i :: acc)) s1)
+  else Ok (EList (rev acc)) s.
+
+Definition step_switchloop (cnd : ast) (cases : list (ast * list ast)) (def : list ast) (s : st) : res :=
+  if is_rbrace (cur s) then Ok (SSwitch cnd (rev cases) def) (next s)
+  else if is_eof s then err s                                      (* nextAndCheck(RBRACE) *)
+  else if is_kw KDefault (cur s) then
+    let s1 := next s in
+    if negb (is_colon (cur s1)) then err s1 else                     (* nextAndCheck(COLON) *)
+    let s2 := next s1 in
+    bind (rec (CaseBody true []) s2) (fun b s3 => rec (SwitchLoop cnd cases (as_list b)) s3)
+  else if is_kw KCase (cur s) then
+    nil_err (rec Stmt (next s)) (fun v s1 =>
+      let s2 := if is_colon (cur s1) then next s1 else s1 in
+      bind (rec (CaseBody false []) s2) (fun b s3 => rec (SwitchLoop cnd ((v, as_list b) :: cases) def) s3))
+  else err s.
+
+Definition step_casebody (isdef : bool) (acc : list ast) (s : st) : res :=
+  if is_eof s || is_kw KCase (cur s) || is_rbrace (cur s) || (negb isdef && is_kw KDefault (cur s))
+  then Ok (EList (rev acc)) s
+  else if is_lbrace (cur s) then rec Block s                          (* statements = the block *)
+  else if is_kw KBreak (cur s) then
+    bind (rec Stmt s) (fun v s1 =>
+      Ok (EList (rev (if is_nil v then acc else v :: acc))) (if is_semi (cur s1) then next s1 else s1))
+  else
+    bind (rec Stmt s) (fun v s1 =>
+      let s2 := if is_semi (cur s1) then next s1 else s1 in
+      if pos s2 =? pos s then err s2                                  (* only the guard ends this *)
+      else rec (CaseBody isdef (if is_nil v then acc else v :: acc)) s2).
+
+Definition step_returns (acc : list ast) (s : st) : res :=
+  if is_comma (cur s) then bind (rec Stmt (next s)) (fun v s1 =>
+    if is_nil v || existsb is_nil acc then err s1 else rec (Returns (v :: acc)) s1)
+  else Ok (SReturns (rev acc)) s.
+
+Definition catch_types (tys : ast) : list nat :=
+  match tys with EList l => map (fun x => match x with EIdentStr n => n | _ => 0 end) l | _ => [] end.
+
+Definition step_catches (body : list ast) (acc : list (list nat * ast * list ast)) (s : st) : res :=
+  if is_kw KCatch (cur s) then
+    let s1 := next s in
+    if negb (is_lp (cur s1)) then err s1 else
+    bind (rec (CatchTypes []) (next s1)) (fun tys s2 =>
+      let types := catch_types tys in
+      if is_var (cur s2) then
+        bind (rec Stmt s2) (fun v s3 =>
+          if is_variable_node v then
+            if is_rp (cur s3) then bind (rec Block (next s3)) (fun b s4 => rec (Catches body ((types, v, as_list b) :: acc)) s4)
+            else err s3
+          else err s3)
+      else if is_rp (cur s2) then
+        bind (rec Block (next s2)) (fun b s3 => rec (Catches body ((types, ENil, as_list b) :: acc)) s3)
+      else err s2)
+  else if is_kw KFinally (cur s) then
+    bind (rec Block (next s)) (fun b s1 => Ok (STry body (rev acc) (as_list b)) s1)
+  else Ok (STry body (rev acc) []) s.
+
+Definition step_catchtypes (acc : list nat) (s : st) : res :=
+  match cur s with
+  | SIdent n =>
+      let s1 := next s in
+      match cur s1 with
+      | SBin OBor => rec (CatchTypes (n :: acc)) (next s1)
+      | _ => Ok (EList (map EIdentStr (rev (n :: acc)))) s1
+      end
+  | _ => Ok (EList (map EIdentStr (match acc with [] => [8] | _ => rev acc end))) s      (* none: "Exception" *)
+  end.
+
+Definition param_fin (v : nat) (acc : list ast) (d : ast) (s2 : st) : res :=
+  let acc' := EAsg AEq (EAtom (AVar v)) d :: acc in
+  if is_comma (cur s2) then
+    let s3 := next s2 in
+    if is_rp (cur s3) then Ok (EList (rev acc')) (next s3) else rec (Params acc') s3
+  else if is_rp (cur s2) then Ok (EList (rev acc')) (next s2)
+  else err s2.
+
+Definition step_params (acc : list ast) (s : st) : res :=
+  match cur s with
+  | SAtom (AVar v) =>
+      let s1 := next s in
+      match cur s1 with
+      | SAsg AEq => bind (rec Stmt (next s1)) (fun d s2 => param_fin v acc d s2)
+      | SColon | SIdent _ | SAtom (ANum _ _) | SAtom (AStr _) | SAtom ANull | SAtom AFalse | SOther => Unsup   (* types *)
+      | _ => param_fin v acc ENil s1
+      end
+  | SIdent _ | SAtom _ | SQ | SBin OBand | SOther => Unsup      (* typed / reference / variadic parameters *)
+  | _ => err s                                                  (* "参数缺少变量名" *)
+  end.
+
+Definition step_plbrace (s : st) : res :=                  (* LbraceParser.Parse; only entered on `{` *)
+  if negb (is_lbrace (cur s)) then err s else
+  let s1 := next s in
+  if is_rbrace (cur s1) then Ok (EKv []) (next s1)
+  else
+    bind (json_key s1) (fun k s2 =>
+      match cur s2 with
+      | SArrow => bind (rec Stmt (next s2)) (fun v s3 => rec (KvLoop true [(k, v)]) s3)
+      | SColon => bind (rec Stmt (next s2)) (fun v s3 => rec (JsonLoop [(k, v)]) s3)
+      | SRbrace => Ok (EKv []) (next s2)
+      | _ => err s2
+      end).
+
+Definition func_params (ps : ast) : list (nat * ast) :=
+  map (fun p => match p with EAsg AEq (EAtom (AVar v)) d => (v, d) | _ => (0, ENil) end) (as_list ps).
+
+Definition step_pfunc (s : st) : res :=                    (* FunctionParser.Parse; only entered on `function` *)
+  if negb (is_kw KFunction (cur s)) then err s else
+  let s1 := next s in
+  match cur s1 with
+  | SBin OBand | SLp => Unsup                       (* & reference return, closure *)
+  | SIdent n =>
+      let s2 := next s1 in
+      if negb (is_lp (cur s2)) then err s2 else
+      let s3 := next s2 in
+      bind (if is_rp (cur s3) then Ok (EList []) (next s3) else rec (Params []) s3) (fun ps s4 =>
+        if is_colon (cur s4) then Unsup              (* return type *)
+        else bind (rec Block s4) (fun b s5 => Ok (SFunc n (func_params ps) (as_list b)) s5))
+  | _ => err s1
+  end.
+
+Definition step (m : mode) (s : st) : res :=
+  match m with
+  | Program last acc => step_program last acc s
+  | Stmt => step_stmt s
+  | MainStmt => step_mainstmt s
+  | Lvl n => step_lvl n s
+  | Loop n acc => step_loop n acc s
+  | ULoop acc => step_uloop acc s
+  | ALoop acc => step_aloop acc s
+  | PLoop acc => step_ploop acc s
+  | CommaList acc => step_commalist acc s
+  | Suffix e => step_suffix e s
+  | Args acc => step_args acc s
+  | Block => step_block s
+  | BlockLoop acc => step_blockloop acc s
+  | ArrAfterComma acc => step_arraftercomma acc s
+  | ArrSkip acc => step_arrskip acc s
+  | KvLoop closer acc => step_kvloop closer acc s
+  | KvLoopComma acc => step_kvloopcomma acc s
+  | JsonLoop acc => step_jsonloop acc s
+  | JsonLoopB acc => step_jsonloopb acc s
+  | EchoLoop acc => step_echoloop acc s
+  | ElseIfs c th acc => step_elseifs c th acc s
+  | IfCond => step_ifcond s
+  | ForInits acc => step_forinits acc s
+  | ForIncs inits c acc => step_forincs inits c acc s
+  | SwitchLoop c cases def => step_switchloop c cases def s
+  | CaseBody isdef acc => step_casebody isdef acc s
+  | Returns acc => step_returns acc s
+  | Catches body acc => step_catches body acc s
+  | CatchTypes acc => step_catchtypes acc s
+  | Params acc => step_params acc s
+  | PLbrace => step_plbrace s
+  | PFunc => step_pfunc s
+  end.
+End Step.
 
 Fixpoint parse (fuel : nat) (m : mode) (s : st) : res :=
   match fuel with 0 => Fuel | S f => step (parse f) m s end.
